@@ -187,3 +187,756 @@ def stats_c08(sc, res):
                     s["send_at_deadline_instant"] += 1
     s["stop_ops"] = sum(1 for r in res.trace if r[K] == "op-call" and r[5] == "stop")
     return s
+
+
+# ===========================================================================
+# C01 - legal configurations at every observation point
+# ===========================================================================
+
+def _last_trans_facts(w, m, seq, where=""):
+    """Structural facts about the transition in progress / just completed at seq (for signatures).
+
+    The sync engine notifies subscribers before on_transition, the async engine after;
+    both the last transition recorded at-or-before seq and the first one after it are looked at.
+    """
+    last = None
+    nxt = None
+    for r in w.trans:
+        if r[SEQ] <= seq:
+            last = r
+        elif nxt is None:
+            nxt = r
+            break
+    facts = {"target_root": False, "target_history_parent": None, "source_inside_history_parent": False}
+    cands = [last, nxt] if where.startswith("subscriber") else [last]
+    for rec in cands:
+        if rec is None:
+            continue
+        t = m.trans.get(rec[5])
+        if t is not None and t.target is not None:
+            if t.target is m.root:
+                facts["target_root"] = True
+            if t.target.kind == "history":
+                facts["target_history_parent"] = t.target.parent.kind
+                facts["source_inside_history_parent"] = t.source.is_descendant_of(t.target.parent, strict=False)
+    return facts
+
+
+def oracle_c01(sc, res):
+    m = Model(sc["machine"])
+    vios = []
+    if sc["engine"] == "pure":
+        for r in res.trace:
+            if r[K] == "pure":
+                probs = m.legal_problems(r[6])
+                if probs:
+                    vios.append(Violation("C01", "illegal-configuration", {"where": "pure", "kind": probs[0][0]},
+                                          f"PureSnapshot.configuration {sorted(r[6])}: {probs}"))
+                    break
+        return vios
+    w = Walk(sc, res, model=m)
+    start_ret = w.ops_ret.get(0)
+    if start_ret is None or (isinstance(start_ret[6], tuple) and start_ret[6][0] == "exc"):
+        return vios  # the library did not agree to start this machine
+    start_seq = start_ret[SEQ]
+    root = m.root.id
+
+    def report(where, cfg, seq, probs):
+        facts = _last_trans_facts(w, m, seq, where)
+        sig = {"where": where, "kind": probs[0][0], "during_start": seq < start_seq, "engine": sc["engine"]}
+        sig.update(facts)
+        vios.append(Violation("C01", "illegal-configuration", sig,
+                              f"{where} at seq {seq}: configuration {list(cfg)} -> {probs[:3]}"))
+
+    for r in res.trace:
+        k = r[K]
+        if vios:
+            break
+        if k == "obs" and r[5] == root:
+            if r[SEQ] < start_seq:
+                continue
+            probs = m.legal_problems(r[6]["cfg"])
+            if probs:
+                report("observation:" + ("quiescent" if sc["engine"] == "async" else "return"), r[6]["cfg"], r[SEQ], probs)
+        elif k == "trans" and r[4] == root:
+            for which, cfg in (("to_states", r[9]), ("live", r[10])):
+                probs = m.legal_problems(cfg)
+                if probs:
+                    report("on_transition:" + which, cfg, r[SEQ], probs)
+                    break
+        elif k == "sub" and r[4] == root:
+            probs = m.legal_problems(r[5])
+            if probs:
+                report("subscriber" + (":error-status" if r[6] == "error" else ""), r[5], r[SEQ], probs)
+        elif k == "op-ret" and r[5] == "snapshot" and isinstance(r[6], tuple) and r[6][0] == "snapshot":
+            import json as _json
+            try:
+                cfg = _json.loads(r[6][1]).get("configuration") or ()
+            except Exception:
+                continue
+            probs = m.legal_problems(cfg)
+            if probs:
+                report("snapshot", cfg, r[SEQ], probs)
+    return vios
+
+
+# ===========================================================================
+# C03 - exit -> transition -> entry; exactly-once accounting; frame
+# ===========================================================================
+
+def _segments(w):
+    """Yield ('act', record) for every marker action and ('trans', trigger, [acts], record)
+    per executed transition, in trace order, for one interpreter."""
+    cur = []
+    trig = None
+    for r in w.trace:
+        k = r[K]
+        if k == "recv" and r[4] == w.iid:
+            trig = r
+            cur = []
+        elif k == "act" and r[4] == w.iid:
+            cur.append(r)
+            yield ("act", r)
+        elif k == "trans" and r[4] == w.iid:
+            yield ("trans", trig, cur, r)
+            cur = []
+
+
+def oracle_c03(sc, res):
+    w = Walk(sc, res)
+    m = w.model
+    vios = []
+    start_ret = w.ops_ret.get(0)
+    if start_ret is None or (isinstance(start_ret[6], tuple) and start_ret[6][0] == "exc"):
+        return vios
+    if w.aborted():
+        return vios
+    tally = set()
+    for item in _segments(w):
+        if item[0] == "act":
+            a = item[1]
+            nm = a[5]
+            if nm.startswith("en."):
+                sid = nm[3:]
+                if sid in tally:
+                    vios.append(Violation("C03", "entered-while-active", {"engine": sc["engine"]},
+                                          f"{sid} entry actions ran while it was already active (seq {a[SEQ]})"))
+                    return vios
+                tally.add(sid)
+            elif nm.startswith("ex."):
+                sid = nm[3:]
+                if sid not in tally:
+                    vios.append(Violation("C03", "exited-while-inactive", {"engine": sc["engine"]},
+                                          f"{sid} exit actions ran while it was not active (seq {a[SEQ]})"))
+                    return vios
+                tally.discard(sid)
+            continue
+        _k, trig, acts, tr = item
+        t = m.trans.get(tr[5])
+        markers = [a for a in acts if a[5].startswith(("en.", "ex.", "tr."))]
+        is_init = tr[7] == "___xstate_statemachine_init___" or (trig is None)
+        live = set(tr[10])
+        if tally != live:
+            # (entries - exits) must equal the change in activity for every state
+            diff = sorted(tally ^ live)
+            vios.append(Violation("C03", "accounting-mismatch", {"engine": sc["engine"], "init": is_init},
+                                  f"after transition {tr[5]} entry/exit tally {sorted(tally)} != configuration {sorted(live)} (diff {diff})"))
+            return vios
+        if is_init or t is None:
+            continue
+        # ---- order: exits, then transition actions, then entries
+        phase = 0
+        order = {"ex.": 0, "tr.": 1, "en.": 2}
+        for a in markers:
+            ph = order[a[5][:3]]
+            if ph < phase:
+                vios.append(Violation("C03", "action-order", {"engine": sc["engine"], "late_kind": a[5][:2]},
+                                      f"transition {t.tid}: {a[5]} ran after a later-phase action; sequence {[x[5] for x in markers]}"))
+                return vios
+            phase = max(phase, ph)
+        exits = [m.node(a[5][3:]) for a in markers if a[5].startswith("ex.")]
+        entries = [m.node(a[5][3:]) for a in markers if a[5].startswith("en.")]
+        for i, x in enumerate(exits):
+            for y in exits[i + 1:]:
+                if x is not None and y is not None and y.is_descendant_of(x):
+                    vios.append(Violation("C03", "exit-order", {"engine": sc["engine"]},
+                                          f"transition {t.tid}: {x.id} exited before its descendant {y.id}"))
+                    return vios
+        for i, x in enumerate(entries):
+            for y in entries[i + 1:]:
+                if x is not None and y is not None and x.is_descendant_of(y):
+                    vios.append(Violation("C03", "entry-order", {"engine": sc["engine"]},
+                                          f"transition {t.tid}: {x.id} entered before its ancestor {y.id}"))
+                    return vios
+        # ---- internal transitions run actions only
+        if t.internal and (exits or entries):
+            vios.append(Violation("C03", "internal-transition-moved", {"engine": sc["engine"]},
+                                  f"internal transition {t.tid} produced entry/exit actions {[x[5] for x in markers]}"))
+            return vios
+        # ---- the triggering event reaches every entry/exit/transition action
+        if trig is not None:
+            want = (trig[5], trig[6])
+            # An eventless transition is caused either by the eventless pass ("" event) or, when it
+            # is selected while an event is being processed, by that event: both are accepted.
+            ok_events = {want, ("", None)} if tr[7] == "" else {want}
+            for a in markers:
+                got = (a[6], a[7])
+                if got not in ok_events:
+                    node = m.node(a[5][3:]) if not a[5].startswith("tr.") else None
+                    default_descent = bool(node is not None and a[5].startswith("en.") and t.target is not None
+                                           and not (t.target is node or t.target.is_descendant_of(node)))
+                    vios.append(Violation("C03", "wrong-trigger-event",
+                                          {"engine": sc["engine"], "role": a[5][:2], "default_descent": default_descent,
+                                           "synthetic": str(got[0]).startswith(("entry.", "exit."))},
+                                          f"transition {t.tid} caused by {want}: {a[5]} received {got}"))
+                    return vios
+        # ---- frame: nothing outside subtree(LCA(source, target)) is touched
+        if t.target is not None and not t.internal:
+            tgt = t.target
+            L = m.lca(t.source, tgt)
+            for x in exits + entries:
+                if x is not None and not x.is_descendant_of(L, strict=False):
+                    vios.append(Violation("C03", "frame-violated", {"engine": sc["engine"], "lca_kind": L.kind},
+                                          f"transition {t.tid} {t.source.id}->{tgt.id}: {x.id} is outside subtree({L.id}) but was entered/exited"))
+                    return vios
+    return vios
+
+
+# ===========================================================================
+# shared: context reconstruction + reference guard values
+# ===========================================================================
+
+def apply_effects(ctx, sc, r):
+    """Update the reconstructed context for one trace record."""
+    k = r[K]
+    if k == "act":
+        spec = ((sc.get("logic") or {}).get("actions") or {}).get(r[5])
+        if spec:
+            for e in spec.get("eff", []):
+                if e[0] == "inc":
+                    ctx[e[1]] = ctx.get(e[1], 0) + e[2]
+                elif e[0] == "set":
+                    ctx[e[1]] = e[2]
+    elif k == "ucall" and r[4] == "assign" and len(r) > 8 and isinstance(r[8], dict):
+        ctx.update(r[8])
+
+
+def guard_atom_value(sc, name, params, ctx):
+    spec = ((sc.get("logic") or {}).get("guards") or {}).get(name)
+    if spec is None:
+        return "builtin" if name == "stateIn" else "missing"
+    k = spec.get("k")
+    if k == "const":
+        return bool(spec["v"])
+    if k == "ctx_lt":
+        return ctx.get(spec["key"], 0) < spec["v"]
+    if k == "ctx_ge":
+        return ctx.get(spec["key"], 0) >= spec["v"]
+    if k == "ctx_eq":
+        return ctx.get(spec["key"], 0) == spec["v"]
+    if k == "ctx_odd":
+        return ctx.get(spec["key"], 0) % 2 == 1
+    if k == "raise":
+        return "raise"
+    if k == "params_eq":
+        return params == spec["v"]
+    if k == "param_truth":
+        return bool((params or {}).get(spec.get("key", "v")))
+    return "missing"
+
+
+def ref_guard(sc, gcfg, ctx, cfg_ids):
+    """Reference truth value of a raw guard config; raises GuardMissing when a missing atom is consulted."""
+    from .model import eval_guard
+
+    def atom(name, params):
+        p = params
+        if isinstance(p, dict) and "$fn" in p:
+            fs = p["$fn"]
+            p = fs.get("v") if fs.get("k") == "const" else None
+        return guard_atom_value(sc, name, p, ctx)
+
+    def state_in(target):
+        t = target[1:] if target.startswith("#") else target
+        return any(i == t or i.endswith("." + t) for i in cfg_ids)
+    return eval_guard(gcfg, atom, state_in)
+
+
+# ===========================================================================
+# C02 - selection
+# ===========================================================================
+
+def _event_kind(etype):
+    if etype.startswith("after."):
+        return "after", None
+    if etype.startswith("done.invoke."):
+        return "done", etype[len("done.invoke."):]
+    if etype.startswith("error.platform."):
+        return "done", etype[len("error.platform."):]
+    return "plain", None
+
+
+def _obs_core(o):
+    return (o["cfg"], o["ctx"], o["history"], o["output"], o["status"], o["census"])
+
+
+def oracle_c02(sc, res):
+    from .model import GuardMissing
+    w = Walk(sc, res)
+    m = w.model
+    vios = []
+    start_ret = w.ops_ret.get(0)
+    if start_ret is None or (isinstance(start_ret[6], tuple) and start_ret[6][0] == "exc") or w.aborted():
+        return vios
+    root = m.root.id
+    ctx = dict(sc["machine"].get("context") or {})
+    cfg = set()
+    # split the trace into steps: one per recv (of the root) ; also handle can ops
+    steps = []  # (recv record, cfg at recv, ctx at recv, [records until next boundary])
+    cur = None
+    last_obs = None
+    can_windows = []  # (op-call rec, op-ret rec, cfg, ctx, obs_before)
+    open_can = None
+    send_ops = {}  # op index -> (obs_before, obs_after)
+    pending_send = None
+    for r in res.trace:
+        k = r[K]
+        if k == "act" and r[4] == root:
+            nm = r[5]
+            if nm.startswith("en."):
+                cfg.add(nm[3:])
+            elif nm.startswith("ex."):
+                cfg.discard(nm[3:])
+        if k in ("act", "ucall"):
+            if k == "ucall" or r[4] == root:
+                apply_effects(ctx, sc, r)
+        if k == "recv" and r[4] == root:
+            cur = [r, set(cfg), dict(ctx), []]
+            steps.append(cur)
+        elif cur is not None and k in ("act", "trans", "gcall", "ucall") and (k in ("gcall", "ucall") or r[4] == root):
+            cur[3].append(r)
+        if k == "op-call":
+            cur = None if r[5] in ("can",) else cur
+            if r[5] == "can":
+                open_can = [r, None, set(cfg), dict(ctx), last_obs, []]
+            elif r[5] == "send":
+                pending_send = [r[4], last_obs, None]
+        elif k == "op-ret" and r[5] == "can" and open_can is not None:
+            open_can[1] = r
+            can_windows.append(open_can)
+            open_can = None
+        elif open_can is not None and k in ("act", "trans", "ucall", "recv"):
+            open_can[5].append(r)
+        elif k == "obs" and r[5] == root:
+            last_obs = r[6]
+            if pending_send is not None and r[4] == f"after-op{pending_send[0]}":
+                pending_send[2] = r[6]
+                send_ops[pending_send[0]] = (pending_send[1], pending_send[2])
+                pending_send = None
+            if can_windows and can_windows[-1][1] is not None and len(can_windows[-1]) == 6 and r[4] == f"after-op{can_windows[-1][0][4]}":
+                can_windows[-1].append(r[6])
+
+    def gv_factory(cfg_at, ctx_at):
+        def gv(t):
+            try:
+                return ref_guard(sc, t.guard, ctx_at, cfg_at)
+            except GuardMissing:
+                raise
+        return gv
+
+    for rv, cfg_at, ctx_at, recs in steps:
+        etype = rv[5]
+        ek, src = _event_kind(etype)
+        try:
+            gv = gv_factory(cfg_at, ctx_at)
+            noms = m.nominate(cfg_at, etype, gv, ek, src)
+            always_enabled = bool(m.nominate(cfg_at, "", gv)) if etype != "" else False
+        except GuardMissing:
+            continue  # missing guards are C06's business
+        nom_ids = [t.tid for t in noms]
+        fired = []
+        exited_before = {}
+        for r in recs:
+            if r[K] == "act" and r[5].startswith("ex."):
+                exited_before.setdefault(r[5][3:], r[SEQ])
+            if r[K] == "trans":
+                t = m.trans.get(r[5])
+                if t is not None and t.event == etype and etype != "":
+                    fired.append((t, r))
+        fired_ids = [t.tid for t, _r in fired]
+        sig_base = {"engine": sc["engine"], "event_kind": ek if ek != "plain" else ("raised" if rv[6] is None and etype.startswith("R") else "plain"),
+                    "always_enabled_at_recv": always_enabled}
+        for t, r in fired:
+            if t.tid not in nom_ids:
+                vios.append(Violation("C02", "fired-not-nominated", dict(sig_base, source_active=t.source.id in cfg_at),
+                                      f"event {etype} in {sorted(cfg_at)} ctx={ctx_at}: {t.tid} ({t.source.id}) fired; nominated {nom_ids}"))
+                return vios
+        if len(set(fired_ids)) != len(fired_ids):
+            vios.append(Violation("C02", "fired-twice", sig_base, f"event {etype}: transitions fired {fired_ids}"))
+            return vios
+        for t in noms:
+            if t.tid in fired_ids:
+                continue
+            first_fire_seq = None
+            # lenient: skipped iff its source was exited earlier in this step by another winner
+            if t.source.id in exited_before:
+                continue
+            vios.append(Violation("C02", "nominated-not-fired", sig_base,
+                                  f"event {etype} in {sorted(cfg_at)} ctx={ctx_at}: nominated {nom_ids}, fired {fired_ids}; {t.tid} missing though its source {t.source.id} was not exited"))
+            return vios
+        if not noms and not always_enabled and etype != "":
+            acts = [r for r in recs if r[K] in ("act", "trans", "ucall") and not (r[K] == "trans" and r[7] == "___xstate_statemachine_init___")]
+            if acts:
+                vios.append(Violation("C02", "unhandled-event-not-noop", sig_base,
+                                      f"event {etype} has no nominee in {sorted(cfg_at)} but {[(a[K], a[5]) for a in acts[:4]]} ran"))
+                return vios
+    # frame condition for unhandled external events: observation before == after
+    for rv, cfg_at, ctx_at, recs in steps:
+        tag = rv[6]
+        if tag is None or tag not in send_ops:
+            continue
+        try:
+            gv = gv_factory(cfg_at, ctx_at)
+            noms = m.nominate(cfg_at, rv[5], gv, "plain", None)
+            always_enabled = bool(m.nominate(cfg_at, "", gv))
+        except GuardMissing:
+            continue
+        if noms or always_enabled:
+            continue
+        before, after = send_ops[tag]
+        if before is not None and after is not None and _obs_core(before) != _obs_core(after):
+            vios.append(Violation("C02", "unhandled-event-changed-state", {"engine": sc["engine"]},
+                                  f"unhandled {rv[5]}: observation before {_obs_core(before)} != after {_obs_core(after)}"))
+            return vios
+    # can()
+    for cw in can_windows:
+        call, ret, cfg_at, ctx_at, before, inside = cw[:6]
+        after = cw[6] if len(cw) > 6 else None
+        etype = call[6] if isinstance(call[6], str) else (call[6] or {}).get("type")
+        if ret is None or not isinstance(ret[6], tuple) or ret[6][0] != "can":
+            continue
+        try:
+            gv = gv_factory(cfg_at, ctx_at)
+            noms = m.nominate(cfg_at, etype, gv, "plain", None)
+            always_enabled = bool(m.nominate(cfg_at, "", gv))
+        except GuardMissing:
+            continue
+        expected = bool(noms)
+        if ret[6][1] != expected and not always_enabled:
+            vios.append(Violation("C02", "can-disagrees", {"engine": sc["engine"], "can": ret[6][1]},
+                                  f"can({etype}) = {ret[6][1]} but reference nomination in {sorted(cfg_at)} ctx={ctx_at} is {[t.tid for t in noms]}"))
+            return vios
+        if inside:
+            vios.append(Violation("C02", "can-has-effects", {"engine": sc["engine"]},
+                                  f"can({etype}) produced records {[(r[K],) + tuple(r[4:6]) for r in inside[:4]]}"))
+            return vios
+        if before is not None and after is not None and _obs_core(before) != _obs_core(after):
+            vios.append(Violation("C02", "can-changed-state", {"engine": sc["engine"]},
+                                  f"can({etype}) changed the observation: {_obs_core(before)} -> {_obs_core(after)}"))
+            return vios
+    return vios
+
+
+# ===========================================================================
+# C04 - run-to-completion, lossless, ordered
+# ===========================================================================
+
+_SYNTH = ("___xstate_statemachine_init___", "___xstate_statemachine_exit___")
+
+
+def oracle_c04(sc, res):
+    w = Walk(sc, res)
+    vios = []
+    if w.aborted():
+        return vios
+    root = w.iid
+    start_ret = w.ops_ret.get(0)
+    if start_ret is None or (isinstance(start_ret[6], tuple) and start_ret[6][0] == "exc"):
+        return vios
+    start_ret_seq = start_ret[SEQ]
+    preempted = bool(res.meta.get("preempts_done"))
+    discard = has_log(w, "Discarding")
+    # ---- accepted tags per client, in send order
+    accepted = {}  # client -> [tag]
+    ops = sc.get("ops") or []
+    for i, op in enumerate(ops):
+        if op.get("op") not in ("send", "send_events"):
+            continue
+        call, ret = w.ops_call.get(i), w.ops_ret.get(i)
+        if call is None or ret is None or ret[6] != "ok" or call[8] != "running":
+            continue
+        c = op.get("client", 0)
+        if op["op"] == "send":
+            if "tag" in op:
+                accepted.setdefault(c, []).append(op["tag"])
+        else:
+            for e in op["events"]:
+                if "tag" in e:
+                    accepted.setdefault(c, []).append(e["tag"])
+    recv_tags = [r[6] for r in w.recv if r[6] is not None]
+    counts = {}
+    for t in recv_tags:
+        counts[t] = counts.get(t, 0) + 1
+    fin = w.final_obs("final")
+    status_ok = fin is not None and fin["status"] == "running"
+    during_start_tags = set()
+    for i, op in enumerate(ops):
+        call = w.ops_call.get(i)
+        if call is not None and call[SEQ] < start_ret_seq and op.get("op") in ("send", "send_events"):
+            if op["op"] == "send" and "tag" in op:
+                during_start_tags.add(op["tag"])
+    for c, tags in accepted.items():
+        for t in tags:
+            n = counts.get(t, 0)
+            if n == 0 and status_ok:
+                vios.append(Violation("C04", "event-lost",
+                                      {"engine": sc["engine"], "discard_logged": discard, "preempted": preempted,
+                                       "sent_during_start": t in during_start_tags},
+                                      f"accepted event tag {t} (client {c}) was never processed"))
+                break
+            if n > 1:
+                vios.append(Violation("C04", "event-duplicated", {"engine": sc["engine"], "preempted": preempted},
+                                      f"event tag {t} processed {n} times"))
+                break
+        # per-producer order
+        seen = [t for t in recv_tags if t in set(tags)]
+        want = [t for t in tags if counts.get(t, 0) >= 1]
+        dedup = []
+        for t in seen:
+            if t not in dedup:
+                dedup.append(t)
+        if dedup != want:
+            vios.append(Violation("C04", "producer-order", {"engine": sc["engine"], "preempted": preempted},
+                                  f"client {c} sent {want} but they were processed in order {dedup}"))
+    # ---- run-to-completion: no interleaving, no re-entrancy
+    cur = None  # current recv record
+    done_ids = set()
+    for r in res.trace:
+        k = r[K]
+        if k == "recv" and r[4] == root:
+            if cur is not None:
+                done_ids.add((cur[5], cur[6]))
+            cur = r
+            continue
+        if cur is None or k not in ("act", "trans") or r[4] != root:
+            continue
+        if k == "trans" and r[7] in _SYNTH:
+            continue
+        if r[W] != cur[W]:
+            vios.append(Violation("C04", "concurrent-processing",
+                                  {"engine": sc["engine"], "preempted": preempted, "during_start": r[SEQ] < start_ret_seq},
+                                  f"while {cur[W]} processes {cur[5]}#{cur[6]}, worker {r[W]} executed {k} {r[5]} (seq {r[SEQ]})"))
+            break
+        if k == "act":
+            ident = (r[6], r[7])
+            if ident == (cur[5], cur[6]) or ident[0] == "" or ident[0] in _SYNTH or str(ident[0]).startswith(("entry.", "exit.")):
+                continue
+            vios.append(Violation("C04", "interleaved-or-reentrant",
+                                  {"engine": sc["engine"], "preempted": preempted, "during_start": r[SEQ] < start_ret_seq,
+                                   "earlier_event": ident in done_ids},
+                                  f"action {r[5]} ran for event {ident} while the event being processed is {(cur[5], cur[6])} (seq {r[SEQ]})"))
+            break
+    return vios
+
+
+def stats_c04(sc, res):
+    s = {"clients": len(set(o.get("client", 0) for o in sc.get("ops") or [])), "recv": 0, "raised_recv": 0,
+         "preempts_done": int(res.meta.get("preempts_done") or 0), "burst_over_bound": 0, "sends_during_start": 0}
+    start_ret = None
+    for r in res.trace:
+        if r[K] == "recv":
+            s["recv"] += 1
+            if r[6] is None:
+                s["raised_recv"] += 1
+        if r[K] == "op-ret" and r[5] == "start":
+            start_ret = r[SEQ]
+        if r[K] == "op-call" and r[5] in ("send", "send_events") and start_ret is None:
+            s["sends_during_start"] += 1
+    mi = int(sc["machine"].get("maxIterations", 1000))
+    for o in sc.get("ops") or []:
+        if o.get("op") == "send_events" and len(o["events"]) > mi:
+            s["burst_over_bound"] += 1
+    return s
+
+
+# ===========================================================================
+# C09 - invoked services
+# ===========================================================================
+
+def _svc_identity(data):
+    """(service name, activation index) carried by a completion event, or None."""
+    if isinstance(data, dict) and "svc" in data:
+        return data["svc"], data["act"]
+    if isinstance(data, tuple) and len(data) == 3 and data[0] == "exc" and str(data[2]).startswith("svc:"):
+        _p, name, n = str(data[2]).split(":")
+        return name, int(n)
+    return None
+
+
+def oracle_c09(sc, res):
+    w = Walk(sc, res)
+    m = w.model
+    vios = []
+    if w.aborted():
+        return vios
+    root = w.iid
+    start_ret = w.ops_ret.get(0)
+    if start_ret is None or (isinstance(start_ret[6], tuple) and start_ret[6][0] == "exc"):
+        return vios
+    svc_specs = (sc.get("logic") or {}).get("services") or {}
+    # invoke declarations by service name (generator: one service per invoking state)
+    by_src = {}
+    for n in m.by_id.values():
+        for inv in n.invoke:
+            by_src[inv["src"]] = (n, inv)
+    calls = {}  # (svc, n) -> dict(seq, t, state, act_idx)
+    ends = {}   # (svc, n) -> (seq, outcome)
+    per_activation = {}  # (state, idx, svc) -> [n]
+    for r in res.trace:
+        k = r[K]
+        if k == "svc-call" and r[4] == root:
+            name, n = r[5], r[6]
+            if name not in by_src:
+                continue
+            node, inv = by_src[name]
+            a = w.last_activation_before(node.id, r[SEQ])
+            calls[(name, n)] = {"seq": r[SEQ], "t": r[T], "state": node.id, "act": a.idx if a else None, "a": a}
+            if a is None:
+                vios.append(Violation("C09", "service-started-without-entry", {"engine": sc["engine"]},
+                                      f"service {name} called (activation #{n}) but {node.id} was never entered"))
+                continue
+            per_activation.setdefault((node.id, a.idx, name), []).append(n)
+            want = inv.get("input") or {}
+            if r[7] != want:
+                vios.append(Violation("C09", "service-input", {"engine": sc["engine"]},
+                                      f"service {name} received input {r[7]!r}, declared {want!r}"))
+            if a.seq_out is not None and a.seq_out < r[SEQ]:
+                vios.append(Violation("C09", "service-started-after-exit", {"engine": sc["engine"]},
+                                      f"service {name} #{n} started at seq {r[SEQ]} after {node.id} was exited (seq {a.seq_out})"))
+        elif k == "svc-end":
+            ends[(r[4], r[5])] = (r[SEQ], r[6], r[T])
+    for (sid, idx, name), ns in per_activation.items():
+        if len(ns) > 1:
+            vios.append(Violation("C09", "service-started-twice", {"engine": sc["engine"]},
+                                  f"{sid} activation {idx}: service {name} started {len(ns)} times"))
+    # every activation that survived a quiescent point must have started its services
+    quiescent_seqs = [r[SEQ] for r in w.obs]
+    for name, (node, inv) in by_src.items():
+        spec = svc_specs.get(name) or {}
+        if spec.get("k") not in ("sync", "coro"):
+            continue
+        for a in w.activations.get(node.id, []):
+            survived = any(a.seq_in < q and (a.seq_out is None or a.seq_out > q) for q in quiescent_seqs)
+            if survived and not per_activation.get((node.id, a.idx, name)):
+                if w.stop_call_seq is not None and a.seq_in > w.stop_call_seq:
+                    continue
+                vios.append(Violation("C09", "service-not-started", {"engine": sc["engine"]},
+                                      f"{node.id} activation {a.idx} was active across a quiescent point but {name} was never called"))
+    # completion events
+    handled = {}  # (state, act idx, invoke id) -> count of handler transitions
+    stale_keys = set()
+    for r in w.trans:
+        t = m.trans.get(r[5])
+        if t is None or t.kind not in ("invoke.done", "invoke.error"):
+            continue
+        rv = _recv_before(w, r[SEQ], t.event)
+        if rv is None:
+            continue
+        ident = _svc_identity(rv[7])
+        S = t.source.id
+        a = w.activation_at(S, rv[SEQ])
+        if a is None:
+            vios.append(Violation("C09", "completion-handled-while-inactive", {"engine": sc["engine"]},
+                                  f"{t.tid} fired for {t.event} while {S} has no current activation"))
+            continue
+        key = (S, a.idx, t.invoke_id)
+        handled[key] = handled.get(key, 0) + 1
+        c0 = calls.get(ident) if ident is not None else None
+        if c0 is not None and (c0["act"] != a.idx or c0["state"] != S):
+            stale_keys.add(key)
+        if handled[key] == 2:
+            vios.append(Violation("C09", "completion-handled-twice", {"engine": sc["engine"], "stale_result_involved": key in stale_keys},
+                                  f"{S} activation {a.idx}: two completion transitions for invoke {t.invoke_id}"))
+        if ident is not None:
+            c = calls.get(ident)
+            if c is None:
+                vios.append(Violation("C09", "completion-without-start", {"engine": sc["engine"]},
+                                      f"{t.event} carries {ident} but no such service call was recorded"))
+            elif c["act"] != a.idx or c["state"] != S:
+                vios.append(Violation("C09", "stale-service-result",
+                                      {"reentered": a.idx > 0, "engine": sc["engine"]},
+                                      f"{t.tid}: result of {ident[0]} started in activation {c['act']} of {c['state']} drove the handler of activation {a.idx} of {S}",
+                                      detail={"state": S}))
+            e = ends.get(ident)
+            if e is not None:
+                if (t.kind == "invoke.done") != (e[1] == "return"):
+                    vios.append(Violation("C09", "done-error-mismatch", {"engine": sc["engine"]},
+                                          f"service {ident} ended with {e[1]} but {t.kind} handler {t.tid} ran"))
+    # a service that ended while its activation was still current must be handled exactly once (if a handler is declared
+    # unguarded) provided the activation is still current when the run quiesces
+    fin = w.final_obs("final")
+    for ident, (eseq, outcome, et) in ends.items():
+        c = calls.get(ident)
+        if c is None or c["a"] is None or outcome == "cancelled":
+            continue
+        node, inv = by_src[ident[0]]
+        a = c["a"]
+        handlers = inv["on_done"] if outcome == "return" else inv["on_error"]
+        if a.seq_out is not None:
+            continue  # exited later (or before): discarding is legitimate
+        if fin is None or fin["status"] != "running":
+            if outcome == "raise" and not inv["on_error"] and fin is not None and fin["status"] != "stopped":
+                if fin["status"] != "error" or not fin["error"]:
+                    vios.append(Violation("C09", "unhandled-failure-not-error-status", {"engine": sc["engine"], "status": fin["status"]},
+                                          f"service {ident} failed with no onError but status is {fin['status']} error={fin['error']!r}"))
+            continue
+        if outcome == "raise" and not inv["on_error"]:
+            vios.append(Violation("C09", "unhandled-failure-not-error-status", {"engine": sc["engine"], "status": fin["status"]},
+                                  f"service {ident} failed with no onError but status is {fin['status']}"))
+            continue
+        if handlers and any(const_true_guard(sc, h.guard) for h in handlers):
+            if handled.get((node.id, a.idx, inv["id"]), 0) == 0:
+                vios.append(Violation("C09", "completion-never-handled",
+                                      {"engine": sc["engine"], "preempted": bool(res.meta.get("preempts_done")),
+                                       "discard_logged": has_log(w, "Discarding") or has_log(w, "chained self-raised")},
+                                      f"service {ident} ended ({outcome}) while {node.id} activation {a.idx} was current and stayed current, but no handler ran"))
+    # zombies: after an activation is exited (and at the next quiescent point) its service has ended;
+    # after stop() nothing is alive
+    for ident, c in calls.items():
+        spec = svc_specs.get(ident[0]) or {}
+        if spec.get("k") != "coro" or c["a"] is None:
+            continue
+        a = c["a"]
+        if a.seq_out is None:
+            continue
+        q = [x for x in quiescent_seqs if x > a.seq_out]
+        if not q:
+            continue
+        e = ends.get(ident)
+        if e is None or e[0] > q[0]:
+            vios.append(Violation("C09", "service-survived-exit", {"engine": sc["engine"]},
+                                  f"service {ident} of {c['state']} activation {a.idx} still running at the quiescent point after its exit"))
+    after_stop = w.final_obs("after-stop")
+    if after_stop is not None:
+        if after_stop["census"]:
+            vios.append(Violation("C09", "alive-after-stop", {"engine": sc["engine"]},
+                                  f"after stop(): still alive {after_stop['census']}"))
+        for ident, c in calls.items():
+            spec = svc_specs.get(ident[0]) or {}
+            if spec.get("k") == "coro" and ident not in ends:
+                vios.append(Violation("C09", "service-never-ended", {"engine": sc["engine"]},
+                                      f"service {ident} neither finished nor observed cancellation by the time stop() returned"))
+    return vios
+
+
+def stats_c09(sc, res):
+    s = {"svc_calls": 0, "svc_return": 0, "svc_raise": 0, "svc_cancelled": 0, "completion_recv": 0,
+         "preempts_done": int(res.meta.get("preempts_done") or 0)}
+    for r in res.trace:
+        if r[K] == "svc-call":
+            s["svc_calls"] += 1
+        elif r[K] == "svc-end":
+            s["svc_" + r[6]] = s.get("svc_" + r[6], 0) + 1
+        elif r[K] == "recv" and str(r[5]).startswith(("done.invoke.", "error.platform.")):
+            s["completion_recv"] += 1
+    return s
